@@ -42,7 +42,7 @@ ID = "C15"
 LEVEL = "exploration"
 RULE = ("generated packages: one macro module (3-7 macros; private, dashed, Unicode, ?/! names; optional "
         "_hy_export_macros via export/setv; reader macros) and two client modules that `require` it in the "
-        "documented shapes {bare, :as, [names/:as], *, :macros, :readers, relative, pkg [submodule], several entries "
+        "documented shapes {bare, :as, [names/:as] incl. the same macro named 2-3 times in one list, *, :macros, :readers, relative, pkg [submodule], several entries "
         "in one form, nested in do/when, inside a function (require_vals path)}, client B also requiring from client A; "
         "imported from source then once or twice more from the byte-code cache (positively detected via HY_MESSAGE_WHEN_COMPILING). "
         "Three packages share one trio of child processes (each package is one evaluation). "
@@ -104,15 +104,18 @@ class Client:
         self.nv = 0
         self.nalias = 0
         self.nfn = 0
+        self.dups = set()               # aliases bound by a name list that repeats a source macro
         self.local_expect = {}          # variable -> {"prefix": [...], "locals": [mangled], "evals": [...]}
 
     def fresh_alias(self, rng):
+        # unique per client *and* distinct from the other client's aliases (client B requires
+        # client A's aliases by name)
         self.nalias += 1
-        return f"{rng.choice(ALIASES)}{self.nalias}"
+        return f"{rng.choice(ALIASES)}{self.nalias}{self.hyname[-1]}"
 
     def fresh_prefix(self, rng):
         self.nalias += 1
-        return f"{rng.choice(PREFIXES)}{self.nalias}"
+        return f"{rng.choice(PREFIXES)}{self.nalias}{self.hyname[-1]}"
 
 
 def gen_entry(rng, shape, src, cl, in_pkg):
@@ -129,7 +132,7 @@ def gen_entry(rng, shape, src, cl, in_pkg):
         p = cl.fresh_prefix(rng)
         return f"{S} :as {p}", {f"{p}.{m}": allm[m] for m in exp}, [], None
     if shape in ("names", "mkw", "mkw+readers", "rel"):
-        if not bare_names:
+        if not bare_names or (shape == "mkw+readers" and not src["readers"]):
             return None
         if shape == "rel":
             if not src.get("rel"):
@@ -140,7 +143,13 @@ def gen_entry(rng, shape, src, cl, in_pkg):
                 return (f"{S} :as {p}", {f"{p}.{m}": allm[m] for m in exp}, [],
                         f"{src['hy']} :as {p}")
         picks = rng.sample(bare_names, min(len(bare_names), rng.randint(1, 3)))
-        parts, al = [], {}
+        # a third module prefers an alias that the source module got from a repeated name
+        pref = [d for d in src.get("dups", ()) if d in bare_names]
+        if pref and rng.random() < 0.7:
+            d = rng.choice(pref)
+            if d not in picks:
+                picks[rng.randrange(len(picks))] = d
+        entries = []                      # (source macro, alias) in textual order
         for m in picks:
             if rng.random() < 0.55:
                 a = cl.fresh_alias(rng)
@@ -150,11 +159,24 @@ def gen_entry(rng, shape, src, cl, in_pkg):
                               and not o.startswith("_")]
                     if others:
                         a = rng.choice(others)
-                parts.append(f"{m} :as {a}")
-                al[a] = allm[m]
+                entries.append((m, a))
             else:
-                parts.append(m)
-                al[m] = allm[m]
+                entries.append((m, m))
+        if rng.random() < 0.4:
+            # the same source macro named more than once in one list: plain + aliased, two or
+            # three different aliases; every alias must be bound, at compile time and at run time
+            m = rng.choice(picks)
+            for _ in range(rng.choice([1, 1, 2])):
+                plain_ok = (m, m) not in entries and m not in cl.aliases and \
+                    all(a != m for _, a in entries)
+                e = (m, m) if (plain_ok and rng.random() < 0.25) else (m, cl.fresh_alias(rng))
+                entries.insert(rng.randrange(len(entries) + 1), e)
+            cl.dups |= {a for m_, a in entries if m_ == m}
+            cl.shapes.add("dup-names")
+        parts = [m if a == m else f"{m} :as {a}" for m, a in entries]
+        al = {}
+        for m, a in entries:              # later entries rebind, as in Python's import lists
+            al[a] = allm[m]
         kw = ":macros " if shape in ("mkw", "mkw+readers") or rng.random() < 0.15 else ""
         text = f"{S} {kw}[{' '.join(parts)}]"
         rd = []
@@ -202,7 +224,8 @@ PLAIN_VALUES = [
 def emit_uses(rng, cl, aliases, limit):
     names = list(aliases)
     rng.shuffle(names)
-    for a in names[:limit]:
+    names.sort(key=lambda a: a not in cl.dups)      # aliases from repeated names are always used
+    for a in names[:max(limit, len([a for a in names if a in cl.dups]))]:
         cl.nv += 1
         n = rng.randint(0, 99)
         cl.lines.append(f"(setv v{cl.nv} ({a} {n}))")
@@ -358,7 +381,7 @@ def gen_pkg(rng, tier, slot=0):
     a_exports = [a for a in A.aliases if not _mangle(a).startswith("_")]
     src_a = {"hy": a_hy, "rel": ("." + a_leaf) if pkg else None, "pkg": pkg, "leaf": a_leaf,
              "all": dict(A.aliases), "exports": a_exports, "readers": sorted(A.readers),
-             "nosub": False}
+             "nosub": False, "dups": sorted(d for d in A.dups if d in A.aliases)}
     B = Client(b_hy)
     kb = rng.randint(1, 4)
     shapes_b = rng.sample(applicable, kb)
@@ -702,7 +725,7 @@ def run_batch(batch):
         res["n"] += 1
         if ev:
             classes.append("bytecode-path-detected")
-            if len([s for s in case["shapes"] if s not in ("in-do", "in-when", "local")]) >= 2:
+            if len([s for s in case["shapes"] if s not in ("in-do", "in-when", "local", "local-sub", "dup-names")]) >= 2:
                 res["nt_keys"].append(case["files"])
         if ok is False:
             finding = None
